@@ -8,9 +8,11 @@ calls is judged by ApiRaceMon.
 C11: the same machinery for specs/loop/Notifier.tla on the real handlerNotifier (three streams), agent-level runs through
 the public On* setters judged by CallbackMon, gather cycles with Restart at every gate judged by GatherMon.
 """
+import bisect
 import collections
 import json
 import os
+import random
 import re
 import sys
 import threading
@@ -551,8 +553,197 @@ def n_(tier, quick, thorough):
 C10_ASSUME = ["the task loop is driven through yield points placed before every shared access / blocking operation of Run, runLoop and "
               "CloseWithPreStop (hook H2); the code between two yield points is one atomic model action",
               "testing/synctest decides quiescence; goroutine identity from runtime.Stack",
-              "data-race freedom is observed with the Go race detector on seeded schedules of public calls (a runtime facility, not TLA+); "
-              "linearisability of the public API beyond race freedom is not judged here"]
+              "data-race freedom is observed with the Go race detector on seeded schedules of public calls (a runtime facility, not TLA+)",
+              "linearisability is judged for the control API listed in AgentApi.tla on one agent without a peer (no interface passes the filter, so gather "
+              "cycles open no socket); documented multi-task calls are modelled as such (Start: credentials task + start task under one mutex; GatherCandidates: "
+              "cycle marks are later tasks; AddRemoteCandidate returns before the candidate is added); calls overlap because the driver holds the loop, "
+              "quiescence between driver steps is read from goroutine states"]
+
+
+# ---------------------------------------------------------------- C10, second sentence: linearisability of the public API (AgentApi)
+
+AL_HIST_PREDS = ["StartAtMostOnce", "NoTornCredentials", "NoUnknownError", "ClosedIsFinal"]
+AL_PROCS = ["q%d" % i for i in range(1, 15)]
+AL_OPS = [("StartDial", ["c1", "c2", ""]), ("StartAccept", ["c1", "c3"]), ("Restart", ["c4", "c5", "c6", "short"]),
+          ("SetRemoteCredentials", ["c7", "c8", ""]), ("GetLocalUserCredentials", [""]), ("GetRemoteUserCredentials", [""]),
+          ("GetGatheringState", [""]), ("GatherCandidates", [""]), ("AddRemoteCandidate", ["r1", "r2"]), ("GetRemoteCandidates", [""]),
+          ("OnCandidate", [""]), ("Close", [""])]
+
+
+def al_call(n, op, arg=""):
+    return {"k": "call", "p": "q%d" % n, "op": op, "arg": arg}
+
+
+def al_directed():
+    """Overlaps that ordinary use never produces: two calls are both past their invocation before the loop serves either."""
+    H, F, L = {"k": "hold"}, {"k": "free"}, {"k": "loop"}
+    d = []
+    d.append(("two starts while the loop is busy", True, [H, al_call(1, "StartDial", "c1"), al_call(2, "StartAccept", "c2")] + [L] * 6 +
+              [F, al_call(3, "GetRemoteUserCredentials"), al_call(4, "StartDial", "c3")]))
+    d.append(("two starts, second role first", False, [H, al_call(1, "StartAccept", "c1"), al_call(2, "StartDial", "c2"), L, L, al_call(3, "StartDial", "c3")] + [L] * 6 + [F]))
+    d.append(("three starts and a restart", True, [H, al_call(1, "StartDial", "c1"), al_call(2, "Restart", "c4"), al_call(3, "StartAccept", "c2"), L,
+                                                  al_call(4, "StartAccept", "c3")] + [L] * 8 + [F, al_call(5, "GetRemoteUserCredentials"), al_call(6, "GetLocalUserCredentials")]))
+    d.append(("two gathers while the loop is busy", True, [H, al_call(1, "GatherCandidates"), al_call(2, "GatherCandidates"), L, L, al_call(3, "GetGatheringState")] + [L] * 6 +
+              [F, al_call(4, "GetGatheringState"), al_call(5, "GatherCandidates")]))
+    d.append(("gather without a handler, handler set concurrently", False, [H, al_call(1, "GatherCandidates"), al_call(2, "OnCandidate"), L, L, F, al_call(3, "GatherCandidates"),
+                                                                          al_call(4, "GetGatheringState")]))
+    d.append(("restarts and a reader", True, [H, al_call(1, "Restart", "c4"), al_call(2, "Restart", "c5"), al_call(3, "GetLocalUserCredentials"), L, L, L,
+                                             al_call(4, "GetLocalUserCredentials"), L, F]))
+    d.append(("remote credentials against restart", True, [al_call(1, "SetRemoteCredentials", "c7"), H, al_call(2, "Restart", "c4"), al_call(3, "GetRemoteUserCredentials"),
+                                                          al_call(4, "SetRemoteCredentials", "c8"), L, L, L, F, al_call(5, "GetRemoteUserCredentials")]))
+    d.append(("close against everything", True, [H, al_call(1, "Close"), al_call(2, "Restart", "c4"), al_call(3, "StartDial", "c1"), al_call(4, "GatherCandidates")] + [L] * 6 +
+              [F, al_call(5, "GetLocalUserCredentials"), al_call(6, "Restart", "c5"), al_call(7, "StartAccept", "c2"), al_call(8, "Close")]))
+    d.append(("start interrupted by close", True, [H, al_call(1, "StartDial", "c1"), L, al_call(2, "Close"), L, L, L, F, al_call(3, "StartAccept", "c2")]))
+    d.append(("remote candidates against restart", True, [H, al_call(1, "AddRemoteCandidate", "r1"), al_call(2, "Restart", "c4"), al_call(3, "GetRemoteCandidates")] + [L] * 5 +
+              [F, al_call(4, "AddRemoteCandidate", "r2"), al_call(5, "GetRemoteCandidates")]))
+    d.append(("gather against restart", True, [al_call(1, "GatherCandidates"), H, al_call(2, "Restart", "c4"), al_call(3, "GatherCandidates"), al_call(4, "GetGatheringState")] +
+              [L] * 6 + [F, al_call(5, "GetGatheringState")]))
+    return [{"handler": h, "steps": st, "tag": "directed: " + tag} for tag, h, st in d]
+
+
+def al_random(rng, n):
+    out = []
+    for _ in range(n):
+        steps, calls, hold = [], 0, False
+        ncalls = rng.randint(3, 9)
+        while calls < ncalls:
+            x = rng.random()
+            if x < 0.12:
+                hold = not hold
+                steps.append({"k": "hold" if hold else "free"})
+            elif x < 0.40 and hold:
+                steps.append({"k": "loop"})
+            else:
+                op, args = rng.choice(AL_OPS)
+                if op == "Close" and rng.random() < 0.6:
+                    continue
+                calls += 1
+                steps.append(al_call(calls, op, rng.choice(args)))
+        if hold:
+            steps += [{"k": "loop"}] * rng.randint(0, 4) + [{"k": "free"}]
+        out.append({"handler": rng.random() < 0.6, "steps": steps, "tag": "random"})
+    return out
+
+
+def al_validate(work, trace_lines, tag, stats, timeout):
+    """TLC searches a linearisation of every history of the file; returns the 0-based line the search could not get past, or None."""
+    path = work.path("al_%s.ndjson" % tag)
+    with open(path, "w") as f:
+        for e in trace_lines:
+            f.write(json.dumps(e) + "\n")
+    cfg = "AgentApiTrace_%s.cfg" % tag
+    write_cfg(work.path(cfg), {"TraceFile": '"%s"' % path, "Procs": tla_set(AL_PROCS), "OpSet": "{}", "MaxCycles": "12"},
+              ["SPECIFICATION TSpec", "INVARIANT HWM", "POSTCONDITION Accepted", "CHECK_DEADLOCK FALSE"])
+    r = v.tlc(work.dir, "AgentApiTrace", cfg=cfg, workers=1, timeout=timeout, dfs=True, heap="8g")
+    if r.error:
+        sys.stderr.write(r.out[-2000:])
+        raise v.Inconclusive("linearisation search %s: TLC %s" % (tag, r.error))
+    stats["lin_search_states"] = stats.get("lin_search_states", 0) + r.distinct
+    if r.clean:
+        return None
+    rej = r.prints("TRACE_REJECTED_AT")
+    if not rej:
+        sys.stderr.write(r.out[-2000:])
+        raise v.Inconclusive("linearisation search %s ended without a verdict" % tag)
+    return int(rej[0][0]) - 1
+
+
+def api_lin_part(work, verdict, stats, binary, tier, seed):
+    t0 = time.time()
+    rng = random.Random(seed * 7919 + 17)
+    # the design: AgentApi model-checked with three concurrent callers over the whole operation set
+    r = model_check(work, "MC_AgentApi", "MC_AgentApi.cfg", stats, timeout=900)
+    if not r.clean:
+        sys.stderr.write(r.out[-2000:])
+        raise v.Inconclusive("AgentApi: the model violates %s" % (r.invariants_violated or "a property"))
+    api_lin_run(work, verdict, stats, binary, al_directed() + al_random(rng, n_(tier, 400, 6000)), tier)
+    stats["timing_s"]["api_linearisability"] = round(time.time() - t0, 1)
+
+
+def api_lin_run(work, verdict, stats, binary, scs, tier):
+    """Drive the scenarios on a real agent each, judge the histories (monitor + linearisation search)."""
+    for i, sc in enumerate(scs):
+        sc["id"] = i + 1
+    with open(work.path("al_scenarios.ndjson"), "w") as f:
+        for sc in scs:
+            f.write(json.dumps(sc) + "\n")
+    trace = work.path("al_trace.ndjson")
+    job = {"scenarios": work.path("al_scenarios.ndjson"), "out": trace, "stats": work.path("al_stats.json")}
+    jp = work.path("al_job.json")
+    json.dump(job, open(jp, "w"))
+    drive(binary, "TestApiLin", jp, "api linearisability", timeout=n_(tier, 200, 1500))
+    lines = v.read_ndjson(trace)
+    dst = json.load(open(job["stats"]))["counts"]
+    resets = [i for i, e in enumerate(lines) if e["ev"] == "Reset"]
+    bounds = list(zip(resets, resets[1:] + [len(lines)]))
+    stuck = {b for b in bounds if any(e["ev"] == "Stuck" for e in lines[b[0]:b[1]])}
+    if len(stuck) > max(2, len(bounds) // 50):
+        raise v.Inconclusive("api driver: %d of %d scenarios did not finish" % (len(stuck), len(bounds)))
+    traces = [lines[a:b] for (a, b) in bounds if (a, b) not in stuck]
+    stats["api_histories"] = len(traces)
+    stats["api_calls"] = dst.get("calls", 0)
+    stats["api_loop_turns_granted"] = dst.get("loop_turns", 0)
+    stats["api_histories_dropped_unfinished"] = len(stuck)
+    stats["real_traces"] += len(traces)
+    stats["real_steps"] += sum(len(t) for t in traces)
+    flat = [e for t in traces for e in t]
+    # consequences that need no search (monitor)
+    mpath = work.path("al_mon.ndjson")
+    with open(mpath, "w") as f:
+        for e in flat:
+            f.write(json.dumps(e) + "\n")
+    rm, viols = monitor(work, "ApiHistMon", mpath, AL_HIST_PREDS, "al")
+    stats["monitor_states"] += rm.distinct
+    stats["monitor_predicates_evaluated"] += rm.distinct * len(AL_HIST_PREDS)
+    starts = [i for i, e in enumerate(flat) if e["ev"] == "Reset"]
+
+    def trace_of(idx):
+        k = bisect.bisect_right(starts, idx) - 1
+        return traces[k], idx - starts[k]
+    seen = set()
+    for pred, n in viols:
+        tr, off = trace_of(n - 1)
+        key = (pred, tr[0]["id"])
+        if key in seen:
+            continue
+        seen.add(key)
+        e = tr[off]
+        opof = {x["p"]: x["op"] for x in tr if x["ev"] == "inv"}
+        feat = {"predicate": pred, "part": "api-history", "op": opof.get(e.get("p"), ""), "res": e.get("res", ""), "scenario": tr[0].get("tag", "")[:40]}
+        report(verdict, stats, feat, lambda path, tr=tr, pred=pred: json.dump(
+            {"property": "C10", "family": FAMILY, "kind": "apilin", "driver": "TestApiLin", "predicate": pred, "scenario": scs[tr[0]["id"] - 1], "history": tr},
+            open(path, "w")))
+    # the statement itself: every history has a linearisation
+    pending, rejected, rounds = traces, [], 0
+    while pending and rounds < 8:
+        rounds += 1
+        flat = [e for t in pending for e in t]
+        at = al_validate(work, flat, "r%d" % rounds, stats, timeout=n_(tier, 300, 1500))
+        if at is None:
+            stats["traces_validated_against_impl"] += len(pending)
+            stats["events_validated"] += len(flat)
+            pending = []
+            break
+        starts2, acc = [], 0
+        for t in pending:
+            starts2.append(acc)
+            acc += len(t)
+        k = bisect.bisect_right(starts2, at) - 1
+        stats["traces_validated_against_impl"] += k
+        stats["events_validated"] += starts2[k]
+        rejected.append((pending[k], at - starts2[k]))
+        pending = pending[k + 1:]
+    stats["api_histories_not_examined"] = sum(1 for _ in pending)
+    for tr, off in rejected:
+        e = tr[off] if off < len(tr) else {}
+        opof = {x["p"]: x["op"] for x in tr if x["ev"] == "inv"}
+        feat = {"predicate": "Linearizable", "part": "api-history", "stuck_at": e.get("ev", ""), "op": opof.get(e.get("p"), e.get("op", "")),
+                "res": e.get("res", ""), "ops": ",".join(sorted(set(opof.values()))), "scenario": tr[0].get("tag", "")[:40]}
+        report(verdict, stats, feat, lambda path, tr=tr, off=off: json.dump(
+            {"property": "C10", "family": FAMILY, "kind": "apilin", "driver": "TestApiLin", "predicate": "Linearizable", "unexplained_line": off,
+             "scenario": scs[tr[0]["id"] - 1], "history": tr}, open(path, "w")))
+    if traces:
+        stats["samples"].append({"api_history": traces[0][:14]})
 
 
 def c10(tier, seed):
@@ -600,9 +791,10 @@ def c10(tier, seed):
         if box.get("exc"):
             raise box["exc"]
         race_part(work, verdict, stats, box["race"], tier, seed)
+        api_lin_part(work, verdict, stats, binary, tier, seed)
     stats.pop("_shapes", None)
     verdict.coverage.update(stats)
-    verdict.coverage["predicates"] = TL_PREDS + ["RaceFree"]
+    verdict.coverage["predicates"] = TL_PREDS + ["RaceFree", "Linearizable"] + AL_HIST_PREDS
     verdict.coverage["exhaustive"] = True
     verdict.assumptions = C10_ASSUME
     return verdict.finish()
@@ -832,8 +1024,14 @@ MANIFEST = {
             "an edge cover of the complete TLC state graph is replayed through yield-point gates on the real internal/taskloop inside synctest bubbles "
             "(adaptive to Go's random select), plus seeded unguided gated walks and free-running jitter runs; every recorded step is validated against the "
             "spec and judged by TaskLoopMon (Mutex, OkIffRanOnce, ErrIffNever, NoStartAfterClose, OnCloseOnceLast, CloseRetImpliesQuiet, RunReturns, CloseReturns). "
-            "Second sentence: concurrent public Agent/Conn calls on two connected real agents and Restart at every point of a gather cycle under the Go race detector.",
-            LOOP_NOTE, "TLA+ spec model-checked with TLC; whole-graph edge-cover replay on the real code through yield-point gates; traces validated and judged in TLC; Go race detector"),
+            "Second sentence: (a) AgentApi.tla - every public control call (StartDial/StartAccept, Restart, SetRemoteCredentials, Get*Credentials, GatherCandidates, "
+            "GetGatheringState, AddRemoteCandidate, GetRemoteCandidates, OnCandidate, Close) as atomic step(s) on an abstract agent state - model-checked for 3 concurrent "
+            "callers; invocation/return histories of concurrent calls on a real agent, overlapped deterministically by holding its task loop at a yield point, are "
+            "searched by TLC for a linearisation (AgentApiTrace.tla: silent atomic steps placed between invocation and return) and judged by ApiHistMon "
+            "(StartAtMostOnce, NoTornCredentials, NoUnknownError, ClosedIsFinal); (b) concurrent public Agent/Conn calls on two connected real agents and Restart "
+            "at every point of a gather cycle under the Go race detector.",
+            LOOP_NOTE, "TLA+ spec model-checked with TLC; whole-graph edge-cover replay on the real code through yield-point gates; traces validated and judged in TLC; "
+            "linearisation search of recorded API histories in TLC; Go race detector"),
     "C11": ("model_checking", "5.C11",
             "Notifier.tla (producer, drainers, closer; handler call as an interval; handler behaviours fast / blocking / re-entrant / closing) model-checked "
             "exhaustively over all 4^3 behaviour assignments x {graceful, not}; an edge cover of the complete state graph is replayed through gates on the real "
@@ -870,6 +1068,10 @@ def replay(rp):
         elif kind == "race":
             race_binary = v.build_harness(work, race=True, pkg=FAMILY)
             race_part(work, verdict, stats, race_binary, "quick", int(rp.get("job", {}).get("seed", 1)))
+        elif kind == "apilin":
+            binary = v.build_harness(work, pkg=FAMILY)
+            sc = {k: rp["scenario"][k] for k in ("handler", "steps", "tag")}
+            api_lin_run(work, verdict, stats, binary, [dict(sc) for _ in range(10)], "quick")
         elif kind == "callbacks":
             return PLANS[prop]("quick", 1)
         elif kind == "gather":
